@@ -48,7 +48,7 @@ package receiver
 //@ ensures [peeronly] result1 == nil ==> isPeerName(h, ctx)
 //@ ensures [refused] !isPeerName(h, ctx) ==> result1 != nil && procstate == old(procstate)
 //@ loop #1
-//@ invariant true
+//@ invariant [range] 0 <= _n && _n <= len(req.Participants) && len(participants) == len(req.Participants) && fresh(participants)
 
 //@ func (*Handler).Contribute
 //@ requires h != nil && req != nil
@@ -58,6 +58,6 @@ package receiver
 //@ ensures [peeronly] result1 == nil ==> isPeerName(h, ctx)
 //@ ensures [refused] !isPeerName(h, ctx) ==> result1 != nil && procstate == old(procstate)
 //@ loop #1
-//@ invariant true
+//@ invariant [range] 0 <= _n && _n <= len(req.VerificationVector) && len(vVec) == len(req.VerificationVector) && fresh(vVec)
 //@ loop #2
-//@ invariant true
+//@ invariant [range] 0 <= _n && _n <= len(retVVec) && len(resVVec) == len(retVVec) && fresh(resVVec)
